@@ -188,6 +188,29 @@ Fixpoint memory_trace (best worst : option (list Z)) (calls : list (list (list Z
       (b, w) :: memory_trace (Some b) (Some w) r
   end.
 
+(* find_extreme_points (lines 577-593) on integer-valued fitnesses (exact in binary64: the products
+   with 1e6 stay far below 2^53).  rows = fitnesses, followed by the previous extreme points if any;
+   asf[i][n] = max_c (rows[n][c] - best[c]) * (1 if i = c else 1e6);  extreme[i] = rows[argmin_n asf[i][n]] *)
+Definition list_max (l : list Z) : Z := match l with [] => 0%Z | x :: r => fold_left Z.max r x end.
+
+Definition asf_weight (i c : nat) : Z := if Nat.eqb i c then 1%Z else 1000000%Z.
+
+Definition asf_val (best : list Z) (i : nat) (row : list Z) : Z :=
+  list_max (map (fun c => ((nth c row 0 - nth c best 0) * asf_weight i c)%Z) (seq 0 (length best))).
+
+Fixpoint argmin_z_from (vals : list Z) (i besti : nat) (best : Z) : nat :=
+  match vals with
+  | [] => besti
+  | v :: r => if (v <? best)%Z then argmin_z_from r (S i) i v else argmin_z_from r (S i) besti best
+  end.
+Definition argmin_z (vals : list Z) : nat :=
+  match vals with [] => 0%nat | v :: r => argmin_z_from r 1%nat 0%nat v end.
+
+Definition find_extreme_points (fits : list (list Z)) (best : list Z) (prev : option (list (list Z)))
+  : list (list Z) :=
+  let rows := fits ++ match prev with Some e => e | None => [] end in
+  map (fun i => nth (argmin_z (map (asf_val best i) rows)) rows []) (seq 0 (length best)).
+
 (* the whole selection, exact instance: association computed by the model *)
 Definition nsga3 {T} (Op : numops T) (eps : T) (fits : list (list T)) (fronts : list (list nat))
                  (k : nat) (refs : list (list T)) (best icpt : list T) (dist : list T)
